@@ -210,6 +210,23 @@ CLAIMED['C02'] = dict(
    note=NOTE + "; the composition of these mechanisms over whole documents is not claimed; multi-character markers, embellishment "
         "lists, verbatim and multi-delimiter parsers are not under contract")
 
+CLAIMED['C16'] = dict(
+   text="Proof of the wrapper contracts: each legacy walker method (get_latex_nodes with every stop-condition combination and "
+        "read_max_nodes, get_latex_expression, get_latex_braced_group for every brace type, get_latex_environment, "
+        "get_latex_maybe_optional_arg) is verified to be exactly ONE parse_content call with the equivalent pylatexenc-3 parser "
+        "object configured as requested (constructors executed), a reader created at pos and the given / default parsing state "
+        "(the stop brace pair appended to the group delimiters iff absent), to compute its (node, pos, len) tuple from the node / "
+        "reader position that call returned, and to let every LatexWalkerParseError of that call propagate unchanged -- apart from "
+        "the two documented deviations of get_latex_expression; get_latex_nodes' stop closures are probed with an arbitrary token "
+        "and node count. Spec shims: every spelling of an argument signature over * [ { (up to length 3; arguments_spec_list, "
+        "positional, args_parser string, MacroStandardArgsParser, std_macro in its idioms) yields those argument letters (real "
+        "constructors executed); the legacy wrapper asks the legacy parser once at the reader position, leaves the reader at "
+        "apos+alen and stores the returned states under the names the spec hooks read; nodeoptarg / nodeargs are the documented "
+        "split; the legacy \\verb / verbatim / specials args parser stays inside the string (loop contract) and raises located errors.",
+   ref="DESIGN.md section 5, C16",
+   note=NOTE + "; parse_content enters as an arbitrary outcome; MacroStandardArgsParser.parse_args' own argument loop is not proved "
+        "equal to LatexArgumentsParser on all inputs (two-program equivalence, stated); get_token not covered")
+
 NA = {
 }
 DEFAULT_NA = "check not built yet (work in progress; see DESIGN.md section 5 for the planned contracts)"
